@@ -30,7 +30,11 @@ REAL_KERNELS(d, double)
 
 #define CMUL(T, R, x, y) do { T t_; t_.r = (x).r * (y).r - (x).i * (y).i; t_.i = (x).r * (y).i + (x).i * (y).r; R = t_; } while (0)
 #define CPLX_KERNELS(P, T, F)                                                                                  \
-static T P##div(T x, T y) { F d = y.r * y.r + y.i * y.i; T q; q.r = (x.r * y.r + x.i * y.i) / d; q.i = (x.i * y.r - x.r * y.i) / d; return q; } \
+/* Smith's algorithm, as c_div / z_div of the library: |y|^2 is never formed, so tiny or huge divisors neither underflow nor overflow */ \
+static T P##div(T x, T y) { T q; F ar = y.r < 0 ? -y.r : y.r, ai = y.i < 0 ? -y.i : y.i, ratio, den;                \
+    if (ar <= ai) { ratio = y.r / y.i; den = y.i * (1 + ratio * ratio); q.r = (x.r * ratio + x.i) / den; q.i = (x.i * ratio - x.r) / den; } \
+    else { ratio = y.i / y.r; den = y.r * (1 + ratio * ratio); q.r = (x.r + x.i * ratio) / den; q.i = (x.i - x.r * ratio) / den; } \
+    return q; } \
 void P##gemm_(const char *ta, const char *tb, const int *m, const int *n, const int *k, const T *alpha,       \
               const T *a, const int *lda, const T *b, const int *ldb, const T *beta, T *c, const int *ldc) {  \
     if ((*ta != 'N' && *ta != 'n') || (*tb != 'N' && *tb != 'n')) { fprintf(stderr, "blas3_ref: unsupported gemm\n"); abort(); } \
